@@ -257,11 +257,19 @@ def _native_history(version, steps):
     return outs, rm.real_view(gw), list(tr.writes)
 
 
+def _line_in_older(a, line):
+    """The property speaks about message types that exist in the older protocol."""
+    d = rm.decode(line)
+    return d is None or _exists_in(a, d[2], d[4])
+
+
 def _comparable(steps, a, b):
     for st in steps:
         if st[0] == "fail":
             return False
         if st[0] == "recv":
+            if not _line_in_older(a, st[1]):
+                return False
             f = st[1].split(";")
             if len(f) >= 5 and f[2] == "3" and f[4] in ("22", "32", "2", "1"):
                 return False  # heartbeat / pre-sleep (stated exception), version traffic
@@ -290,7 +298,7 @@ def bounded(world, tier, seed, rep):
     for _ in range(budget):
         a, b = rng.choice(pairs)
         al = [l for l in hn.alphabet(a) if ";3;0;22;" not in l and ";3;0;32;" not in l and "garbage" not in l and ";3;0;2;" not in l and ";0;0;17;" not in l
-              and ";3;0;1;" not in l]
+              and ";3;0;1;" not in l and _line_in_older(a, l)]
         steps = [("recv", rng.choice(al)) for _ in range(rng.randint(1, 8))]
         ra, rb = _native_history(a, steps), _native_history(b, steps)
         n += 1
